@@ -268,11 +268,19 @@ pub fn cmd_walk(jobs_path: &str) {
     let script: Option<Vec<Value>> = jv.get("history").and_then(|h| h.as_array().cloned());
     let steps = script.as_ref().map(|h| h.len()).unwrap_or(steps);
     // the history first (None = the tablet-mode reset), then the run
-    let mut history: Vec<Option<crate::keys::Event>> = vec![];
+    // None = the tablet-mode reset; the events listed with it happen while tablet mode is on (key activity the mapper never sees)
+    let mut history: Vec<(Option<crate::keys::Event>, Vec<crate::keys::Event>)> = vec![];
     for si in 0..steps {
       let scripted: Option<&Value> = script.as_ref().map(|h| &h[si]);
       let roll = match scripted { Some(e) => if e["t"].as_str() == Some("RA") { 0 } else { 50 }, None => rng.below(100) };
-      if roll < 1 { history.push(None); held.clear(); continue; }
+      if roll < 1 {
+        let mut unseen = vec![];
+        if scripted.is_none() && rng.below(2) == 0 {
+          for _ in 0..(1 + rng.below(2)) { let k = keys[rng.below(keys.len())]; unseen.push(if rng.below(3) == 0 { Released(k) } else { Pressed(k) }); }
+        }
+        if let Some(e) = scripted { if let Some(a) = e["unseen"].as_array() { for x in a { unseen.push(pev(x).unwrap()); } } }
+        history.push((None, unseen)); held.clear(); continue;
+      }
       // mostly well-formed events, biased towards releasing when many keys are held; some ill-formed ones
       let ev = if let Some(e) = scripted { pev(e).unwrap() } else if roll < 8 {
         let k = keys[rng.below(keys.len())];
@@ -286,7 +294,7 @@ pub fn cmd_walk(jobs_path: &str) {
         Pressed(free[rng.below(free.len())])
       };
       match &ev { Pressed(k) => { if !held.contains(k) { held.push(*k); } }, Released(k) => held.retain(|h| h != k) }
-      history.push(Some(ev));
+      history.push((Some(ev), vec![]));
     }
     if jv["via"].as_str() == Some("loop") {
       // the same history through the REAL per-device loop and the REAL driver (system-call level): one event per
@@ -294,7 +302,7 @@ pub fn cmd_walk(jobs_path: &str) {
       for rec in crate::looprun::walk_via_loop(&layout, &history, jv["noise"].as_u64().unwrap_or(0) as u8) { writeln!(out, "{}", rec).unwrap(); }
       continue;
     }
-    for h in history {
+    for (h, _unseen) in history {
       let ev = match h {
         None => {
           // the tablet-mode reset
